@@ -63,6 +63,14 @@ func NewSecHarness(in *Inst, events *[]string) *SecHarness {
 	return h
 }
 
+// InstallAcceptAll sets authenticators that admit every request (checks that are not
+// about admission use it to reach the handlers of secured operations).
+func (h *SecHarness) InstallAcceptAll() {
+	for _, field := range h.Field {
+		h.In.SetField(field, func(r *http.Request, token string) (*http.Request, bool) { return r, true })
+	}
+}
+
 // Install sets the authenticator of every scheme in `installed` and nils the others.
 func (h *SecHarness) Install(installed map[string]bool) {
 	for name, field := range h.Field {
